@@ -17,7 +17,9 @@ import Magog.Model.Start
     `KingStepSafe` and `CastleSafe` are the two places where the generator filters a move twice (an
     attack pre-test, then `isLegal`) and the counter once. `KingStepSafe` is proved here from the
     structural condition `KingsOk` (`kingStepSafe_of_kingsOk`); `CastleSafe` is a chess-geometry fact
-    about attack detection that is kept as a hypothesis. The others are data-structure
+    about attack detection that is kept as a hypothesis here and discharged from `Inv` + `OppSafe` in
+    `Props/C06Spec.lean` / `Props/C01.lean` (`castleSafe_of_inv`), together with all the other side
+    conditions (`C06Spec.countOk_of_inv`) and the "no panic" assumption. The others are data-structure
     well-formedness. `CellsOk` and `KingStepSafe` are shown to be necessary by counterexamples
     (`c06BadCell`, `c06AdjKings`). Witnesses for the examples: `Count.c06Witness` (1.e4 e5 2.Nf3 Nc6
     3.Bc4 Bc5 4.a4 a6 5.a5 b5: en-passant, captures and castling all available),
